@@ -362,7 +362,10 @@ pub fn bytes_pass<F: Fam>(rep: &mut Report, b: &[u8], rng: &mut Rng, fl: &ByteFl
             match guard(rep, "reencode-panic", &input, || F::encode(&p)) {
                 Some(Ok(e2)) => {
                     if e2.len() > consumed {
-                        rep.fail("reencode-longer", input.clone(), format!("{}: re-encoding is {} bytes, decoder consumed {}", fe, e2.len(), consumed));
+                        // cause: did the (lenient) decoder read beyond the frame its fixed header declares?
+                        let overread = frame_extent(b).map(|(h, rl)| consumed > h + rl).unwrap_or(false);
+                        let key = if overread { "lenient-understated-remaining-length" } else { "reencode-longer" };
+                        rep.fail(key, input.clone(), format!("{}: re-encoding is {} bytes, decoder consumed {} (fixed header declares {:?})", fe, e2.len(), consumed, frame_extent(b)));
                     }
                     let d1 = guard(rep, "decode-panic", &input, || F::decode(&e2));
                     let d2 = guard(rep, "decode-panic", &input, || F::poll(&e2, vec![], Term::Eof));
